@@ -610,6 +610,15 @@ def _check(ctx: Ctx) -> None:
     loop = next((a for a in ancestors(note_if) if isinstance(a, ast.For)), None)
     pre = [s for s in loop.body if isinstance(s, ast.Assign) and s.lineno < note_if.lineno]
     nze.run_block(pre + [s for s in note_if.body if isinstance(s, ast.Assign)])
+    # equalities a raising guard establishes for the rest of the iteration: `if ch != pairing[0].channel: raise` -- from there on `ch` is that channel
+    for g_ in loop.body:
+        if isinstance(g_, ast.If) and g_.lineno < note_if.lineno and not g_.orelse and any(isinstance(x, ast.Raise) for x in g_.body) \
+                and isinstance(g_.test, ast.Compare) and len(g_.test.ops) == 1 and isinstance(g_.test.ops[0], ast.NotEq):
+            a_, b_ = g_.test.left, g_.test.comparators[0]
+            for v_, e_ in ((a_, b_), (b_, a_)):
+                if isinstance(v_, ast.Name) and v_.id not in nze.env and not isinstance(e_, ast.Name):
+                    nze.env[v_.id] = nze.norm(e_)
+                    break
     fld_src = {}
     for pr, lst in sites.items():
         for c, js in lst:
